@@ -865,3 +865,134 @@ func metavariableBindsCode(r *an.Run, rule string) {
 	}
 	r.Check(good, short(f)+"|absent-identifier-rejected", isNil.Pos(), "for a nil candidate every reachable return answers false")
 }
+
+// chainStep: v is "the link below p" — the value of a field F of *p (an
+// interface or pointer) type-asserted or loaded as a pointer to p's own struct
+// type, taken directly or through a method of that type which returns it.
+// It returns the struct type and the field index stepped through.
+func chainStep(v ssa.Value, p ssa.Value) (st *types.Named, field int, ok bool) {
+	pt, isPtr := p.Type().Underlying().(*types.Pointer)
+	if !isPtr {
+		return nil, 0, false
+	}
+	named, isNamed := pt.Elem().(*types.Named)
+	if !isNamed {
+		return nil, 0, false
+	}
+	if _, isStruct := named.Underlying().(*types.Struct); !isStruct {
+		return nil, 0, false
+	}
+	// direct: typeassert / load of p.F
+	var direct func(x ssa.Value, recv ssa.Value) (int, bool)
+	direct = func(x ssa.Value, recv ssa.Value) (int, bool) {
+		switch y := x.(type) {
+		case *ssa.Extract:
+			if ta, isTA := y.Tuple.(*ssa.TypeAssert); isTA && y.Index == 0 {
+				return direct(ta, recv)
+			}
+		case *ssa.TypeAssert:
+			if !types.Identical(y.AssertedType, recv.Type()) {
+				return 0, false
+			}
+			return direct(y.X, recv)
+		case *ssa.UnOp:
+			if fa, isFA := y.X.(*ssa.FieldAddr); isFA && y.Op == token.MUL && fa.X == recv {
+				return fa.Field, true
+			}
+		}
+		return 0, false
+	}
+	if f, ok := direct(v, p); ok && types.Identical(v.Type(), p.Type()) {
+		return named, f, true
+	}
+	// through a method: extract #i of m(p) where m returns, at i, the step of its receiver
+	if ex, isEx := v.(*ssa.Extract); isEx {
+		if c, isCall := ex.Tuple.(*ssa.Call); isCall {
+			m := c.Call.StaticCallee()
+			if m != nil && an.InModule(m) && m.Blocks != nil && len(c.Call.Args) > 0 && c.Call.Args[0] == p && len(m.Params) > 0 {
+				all := len(an.Returns(m)) > 0
+				fld := -1
+				for _, ret := range an.Returns(m) {
+					if ex.Index >= len(ret.Results) {
+						all = false
+						continue
+					}
+					f, ok := direct(ret.Results[ex.Index], m.Params[0])
+					if !ok || !types.Identical(ret.Results[ex.Index].Type(), p.Type()) || fld >= 0 && fld != f {
+						all = false
+						continue
+					}
+					fld = f
+				}
+				if all && fld >= 0 {
+					return named, fld, true
+				}
+			}
+		}
+	}
+	return nil, 0, false
+}
+
+// chainWalker returns the header phi of l that walks down a chain — every
+// value that comes round the loop is the link below the current one — and the
+// field it follows; nil when l is not such a loop.
+func chainWalker(l *an.Loop) (*ssa.Phi, *types.Named, int) {
+	for _, in := range l.Header.Instrs {
+		phi, ok := in.(*ssa.Phi)
+		if !ok {
+			continue
+		}
+		var st *types.Named
+		fld, n := -1, 0
+		good := true
+		for i, e := range phi.Edges {
+			if !l.Blocks[phi.Block().Preds[i]] {
+				continue
+			}
+			n++
+			s, f, isStep := chainStep(e, phi)
+			if !isStep || fld >= 0 && f != fld {
+				good = false
+				break
+			}
+			st, fld = s, f
+		}
+		if good && n > 0 {
+			return phi, st, fld
+		}
+	}
+	return nil, nil, 0
+}
+
+// linkFieldIsSetOnceAtCreation: field fld of struct type st is stored only into
+// a value allocated in the storing function, and what is stored does not come
+// from that value: every link points to something that existed before it, so
+// a chain of links is finite.
+func linkFieldIsSetOnceAtCreation(r *an.Run, st *types.Named, fld int) bool {
+	for _, f := range r.P.ModuleFuncs() {
+		for _, in := range an.StoresIn(f) {
+			s, ok := in.(*ssa.Store)
+			if !ok {
+				continue
+			}
+			fa, ok := s.Addr.(*ssa.FieldAddr)
+			if !ok || fa.Field != fld {
+				continue
+			}
+			pt, isPtr := fa.X.Type().Underlying().(*types.Pointer)
+			if !isPtr || !types.Identical(pt.Elem(), st) {
+				continue
+			}
+			al, fresh := fa.X.(*ssa.Alloc)
+			if !fresh {
+				return false
+			}
+			for v := range an.BackSlice(s.Val, an.SliceOpts{ThroughMemory: true}) {
+				if v == ssa.Value(al) {
+					return false
+				}
+			}
+		}
+	}
+	return true
+}
